@@ -8,7 +8,7 @@ import concurrent.futures, json, os, sys
 sys.path.insert(0, os.path.join(os.path.dirname(os.path.abspath(__file__)), "..", "lib"))
 import vf
 
-OPN = {1: "register", 2: "login", 3: "check-passwd", 4: "change-passwd", 5: "change-email", 6: "exists", 7: "get-user", 8: "hour"}
+OPN = {1: "register", 2: "login", 3: "check-passwd", 4: "change-passwd", 5: "change-email", 6: "exists", 7: "get-user", 8: "hour", 9: "reload-index"}
 
 
 def enc(strs):
@@ -49,25 +49,31 @@ class Ref:
         self.layer = layer
         self.n, self.reserved, self.throttle, self.idlen, self.emailsz = nslots, [low(r) for r in reserved], throttle, idlen, emailsz
         self.slots = [None] * nslots
+        self.byid = None
         for k in range(nslots):
             if 4 * k + 3 < len(init) and init[4 * k]:
                 i, pw, em, fl = init[4 * k:4 * k + 4]
                 self.slots[k] = {"id": i, "kb": genkb(pw), "email": em, "old": bool(fl[0]), "xempt": bool(fl[1])}
 
-    def find(self, name):
-        i = low(cstr(name, self.idlen + 1))
+    def reindex(self):
+        """case-folded id -> first slot holding it (rebuilt whenever a slot is given or taken away)"""
+        self.byid = {}
         for k, a in enumerate(self.slots):
-            if a and low(a["id"]) == i:
-                return k
-        return None
+            if a:
+                self.byid.setdefault(low(a["id"]), k)
+
+    def find(self, name):
+        if self.byid is None:
+            self.reindex()
+        return self.byid.get(low(cstr(name, self.idlen + 1)))
 
     def reclaimable(self):
         return [k for k, a in enumerate(self.slots) if k >= 1 and a and a["old"] and not a["xempt"] and a["id"] != b"guest"]
 
     def expect(self, code, a):
         """-> (ok?, payload or None, description of the expected effect)"""
-        valid = id_ok(a[0], self.idlen) if code != 8 else True
-        k = self.find(a[0]) if code != 8 and valid else None
+        valid = id_ok(a[0], self.idlen) if code not in (8, 9) else True
+        k = self.find(a[0]) if code not in (8, 9) and valid else None
         acct = self.slots[k] if k is not None else None
         if code == 1:
             i = cstr(a[0], self.idlen + 1)
@@ -103,6 +109,8 @@ class Ref:
         if code == 8:
             self.throttle = False
             return set()
+        if code == 9:
+            return set()
         if not ok:
             if code == 1 and id_ok(a[0], self.idlen) and not any(x is None for x in self.slots) and not self.throttle:
                 i = cstr(a[0], self.idlen + 1)
@@ -121,6 +129,7 @@ class Ref:
             cand = [s for s, x in enumerate(self.slots) if x is None and table[s][0] == i]
             s = cand[0] if cand else [s for s, x in enumerate(self.slots) if x is None][0]
             self.slots[s] = {"id": i, "kb": genkb(a[1]), "email": cstr(a[2], self.emailsz), "old": False, "xempt": False}
+            self.byid = None
             return touched | {s}
         if code == 2:
             self.slots[k]["old"] = False
@@ -174,6 +183,59 @@ def parse_steps(line, nslots, npool):
     return steps
 
 
+def parse_big(line, n, npool):
+    """output of a case of op 2 -> [(status tokens, payload, table (dense, n entries), lookups, missing, extra, disagreeing)], the
+    first entry being the observation after the load (status None)"""
+    f = line.split()
+    if not f or f[0] != "0":
+        return None
+    obs, i = [], 1
+    first = True
+    try:
+        while i < len(f):
+            status, payload = None, None
+            if not first:
+                if f[i] != "-1":
+                    return None
+                i += 1
+                st = f[i]
+                if st == "0":
+                    k = int(f[i + 1]); payload = bytes(int(x) for x in f[i + 2:i + 2 + k]); i += 2 + k; status = ("0",)
+                elif st == "3":
+                    status = ("3", f[i + 1]); i += 2
+                else:
+                    status = (st,); i += 1
+            first = False
+            table = [(b"", 0, b"")] * n
+            beyond = []
+            cnt = int(f[i]); i += 1
+            for _ in range(cnt):
+                rec = int(f[i]); i += 1
+                k = int(f[i]); ident = bytes(int(x) for x in f[i + 1:i + 1 + k]); i += 1 + k
+                m = int(f[i]); i += 1
+                k = int(f[i]); em = bytes(int(x) for x in f[i + 1:i + 1 + k]); i += 1 + k
+                if 1 <= rec <= n:
+                    table[rec - 1] = (ident, m, em)
+                else:
+                    beyond.append(rec)
+            look = [int(x) for x in f[i:i + npool]]; i += npool
+            if f[i] != "-5":
+                return None
+            i += 1
+            lists = {"-5": [], "-6": [], "-7": []}
+            cur = "-5"
+            while i < len(f) and f[i] != "-1":
+                if f[i] in ("-6", "-7"):
+                    cur = f[i]
+                else:
+                    lists[cur].append(int(f[i]))
+                i += 1
+            obs.append((status, payload, table, look, lists["-5"], lists["-6"] + beyond, lists["-7"]))
+    except (IndexError, ValueError):
+        return None
+    return obs
+
+
 def main():
     c = vf.Check("C03")
     rng = c.rng
@@ -181,8 +243,11 @@ def main():
     c.prove()
     model_ok = c.model_ok()
     impl = vf.build_impl()
+    impl_docker = vf.build_impl(tags="verif docker", name="implrun_docker")      # MAX_USERS = 2 000 000: the production constants
     model = vf.build_model("C03") if model_ok else None
     vf.ipc_cleanup()
+    dk = vf.run_impl(impl_docker, "C03", ["8"])[0].split()
+    DOCKER_MAX_USERS, PRE = int(dk[1]), int(dk[2])
 
     envl = vf.run_impl(impl, "C03", ["9"])[0].split()
     nslots, idlen, emailsz = int(envl[1]), int(envl[2]), int(envl[3])
@@ -232,10 +297,14 @@ def main():
             init += [i, pw, em, bytes([1 if old else 0, 1 if xe else 0])]
         known = {i: pw for (i, pw, em, old, xe) in slots if i}
         throttle = rng.random() < 0.25
+        ops = gen_ops(shape, known, pws, bad, names_new, [i for i in known])
+        idpool = sorted(set(names_new + TWIN[:4] + [b"SYSOP", b"guest", b"test1", b"old00", b"old01", b"OLD02", b"xempt1"] + [b for b in bad if b][:4]))
+        return {"layer": layer, "throttle": throttle, "pwpool": PW, "idpool": idpool, "init": init, "ops": ops, "shape": shape}
+
+    def gen_ops(shape, known, pws, bad, names_new, existing):
         # ---- operations
         ops = []
         nops = rng.randint(15, 40)
-        existing = [i for i in known]
         for _ in range(nops):
             r = rng.random()
             def some_name():
@@ -277,12 +346,105 @@ def main():
                 ops.append((7, [some_name()]))
             else:
                 ops.append((8, []))
-        idpool = sorted(set(names_new + TWIN[:4] + [b"SYSOP", b"guest", b"test1", b"old00", b"old01", b"OLD02", b"xempt1"] + [b for b in bad if b][:4]))
-        return {"layer": layer, "throttle": throttle, "pwpool": PW, "idpool": idpool, "init": init, "ops": ops, "shape": shape}
+        return ops
 
     def line_of(h):
+        if "n" in h:
+            return "2|%d %d|%s|%s|%s|%s|%s|%s" % (h["layer"], 1 if h["throttle"] else 0, enc(h["pwpool"]), enc(h["idpool"]), enc(reserved),
+                                                 " ".join(str(x) for x in [h["n"]] + h["pos"]), enc(h["sparse"]),
+                                                 "|".join(("%d %s" % (code, enc(a))).strip() for code, a in h["ops"]))
         return "1|%d %d|%s|%s|%s|%s|%s" % (h["layer"], 1 if h["throttle"] else 0, enc(h["pwpool"]), enc(h["idpool"]), enc(reserved), enc(h["init"]),
                                            "|".join(("%d %s" % (code, enc(a))).strip() for code, a in h["ops"]))
+
+    # ---- ids with bytes >= 0x80 (Big5 / Latin-1 text typed into the id field): every high byte value at every position of an
+    # otherwise well-formed id, and ids with several of them. None is a user id: each request naming one must be refused and
+    # leave the table as it is.
+    def high_byte_ids():
+        ids = []
+        tmpl = b"Ab3dE6gHi9kL"
+        for ln in (range(2, 13) if thorough else (2, 5, 12)):
+            for pos in range(ln):
+                for b in range(128, 256):
+                    ids.append(tmpl[:pos] + bytes([b]) + tmpl[pos + 1:ln])
+        ids += [b"A\xc0s\xaaL", b"B\xe9\xe8\xe7", b"\xc0bc1", b"Abc12\xff", b"Ab\xaa\xb5\xba", b"Abcdefghijk\xd8", b"\xa4\xa4\xa4\xe5", b"\xe9\xe8", b"\xff\xff\xff\xff\xff\xff\xff\xff\xff\xff\xff\xff"]
+        for _ in range(400 if thorough else 80):
+            ln = rng.randint(2, 12)
+            i = bytearray(tmpl[:ln])
+            for pos in rng.sample(range(ln), rng.randint(2, ln)):
+                i[pos] = rng.randint(128, 255)
+            ids.append(bytes(i))
+        return ids
+
+    def make_sweep_history(ids, k):
+        h = make_history(0, "roomy")
+        ops = []
+        for j, i in enumerate(ids):
+            ops.append((1, [i, b"123123", b"a@example.com"]))
+            other = (2, 3, 4, 5, 6, 7)[(j + k) % 6]
+            ops.append((other, {2: [i, b"123123"], 3: [i, b"123123"], 4: [i, b"123123", b"pass"], 5: [i, b"x@example.org"], 6: [i], 7: [i]}[other]))
+        return dict(h, ops=ops, pwpool=[b"123123", b"pass"], idpool=sorted(set(ids))[::5] + [b"SYSOP", b"test1"], shape="high-byte-ids", throttle=False)
+
+    # ---- tables of the production build: files of n records with more than PRE_ALLOCATED_USERS free records in front of live accounts
+    LATE = [b"late%02d" % k for k in range(40)] + [b"LateUser1", b"Zed9", b"qq"]
+
+    def make_big_history(layer, shape):
+        ascii_only = layer == 1
+        pws = PW_ASCII if ascii_only else PW
+        bad = [b for b in BADID if not ascii_only or (all(0 < ch < 128 for ch in b) and b)]
+        base = [(b"SYSOP", b"123123", b"sysop@example.com", True, False), (b"guest", b"", b"", True, False),
+                (b"test1", b"123123", b"t1@example.com", False, False), (b"Kahou2", b"abcdefgh", b"", False, False),
+                (b"xempt1", b"pass", b"", True, True)]
+        names = list(LATE)
+        rng.shuffle(names)
+        def acct():
+            return (names.pop(), rng.choice([b"123123", b"pass", b"abcdefgh"]), rng.choice([b"", b"l@example.com"]), rng.random() < 0.3, False)
+        placed = {k: a for k, a in enumerate(base)}
+        late = []
+        if shape == "behind-free":
+            at = len(base)
+            for _ in range(rng.randint(0, 5)):
+                placed[at] = acct(); at += 1
+            at += rng.choice([PRE - 1, PRE, PRE + 1, PRE + 1, PRE + 2, PRE + 9, PRE + 120, PRE + 600])
+            for _ in range(rng.randint(2, 6)):
+                placed[at] = acct(); late.append(placed[at][0]); at += 1
+                if rng.random() < 0.3:
+                    at += rng.randint(1, 40)
+            at += rng.choice([0, 0, 3, 60])
+            for _ in range(rng.randint(0, 3)):
+                placed[at] = acct(); late.append(placed[at][0]); at += 1
+            n = at
+        elif shape == "sprinkled":
+            n = rng.randint(PRE + 100, PRE + 900)
+            for k in sorted(rng.sample(range(len(base), n), rng.randint(8, 20))):
+                placed[k] = acct()
+                if k > PRE:
+                    late.append(placed[k][0])
+        else:                                   # "few-free": at most PRE_ALLOCATED_USERS free records in the whole file
+            n = rng.randint(120, PRE)
+            for k in sorted(rng.sample(range(len(base), n), rng.randint(4, 12))):
+                placed[k] = acct()
+                late.append(placed[k][0])
+        pos = sorted(placed)
+        sparse = []
+        for k in pos:
+            i, pw, em, old, xe = placed[k]
+            sparse += [i, pw, em, bytes([1 if old else 0, 1 if xe else 0])]
+        known = {a[0]: a[1] for a in placed.values()}
+        rng.shuffle(late)
+        existing = late + late + [a[0] for a in placed.values()]
+        ops = gen_ops("roomy", known, pws, bad, list(NEW), existing)
+        ops = [((9, []) if code == 8 and rng.random() < 0.7 else (code, a)) for code, a in ops]
+        ops.insert(rng.randint(0, len(ops)), (9, []))
+        if late:                                # each history asks for an account behind the free records at least once, in every way
+            who = late[0]
+            ops[2:2] = [(6, [who.swapcase()]), (2, [who.lower(), known[who]]), (1, [who.upper(), b"123123", b""]), (3, [who, known[who]])]
+        idpool = sorted(set(NEW[:6] + TWIN[:2] + [a[0] for a in placed.values()] + [x.swapcase() for x in late[:3]] + [b for b in bad if b][:3]))
+        init = []
+        for k in range(n):
+            init += list(sparse[4 * pos.index(k):4 * pos.index(k) + 4]) if k in placed else [b"", b"", b"", b"\0\0"]
+        return {"layer": layer, "throttle": False, "pwpool": PW, "idpool": idpool, "init": init, "ops": ops, "shape": shape,
+                "n": n, "pos": pos, "sparse": sparse, "late": late, "free_before_last": sum(1 for k in range(max(pos)) if k not in placed),
+                "deep": [placed[k][0] for j, k in enumerate(pos) if k - j > PRE]}      # accounts with more than PRE free records in front of them
 
     hs = []
     # the full table with expired accounts first (DESIGN section 6, row 19)
@@ -293,75 +455,134 @@ def main():
     nh = 4000 if thorough else 400
     for k in range(nh):
         hs.append(make_history(1 if k % 5 == 4 else 0, rng.choice(["roomy", "roomy", "tight", "tight", "full", "full-old", "full-old"])))
+    hb = high_byte_ids()
+    c.cov["exhaustive_parts"].append("every byte value 0x80..0xFF at every position of an otherwise well-formed id of length %s: register + one other request each (%d ids, %d more with several such bytes)"
+                                     % ("2..12" if thorough else "2, 5, 12", 128 * sum(range(2, 13) if thorough else (2, 5, 12)), len(hb) - 128 * sum(range(2, 13) if thorough else (2, 5, 12))))
+    per = 40
+    for k in range(0, len(hb), per):
+        hs.append(make_sweep_history(hb[k:k + per], k // per))
+    nsweep = len(range(0, len(hb), per))
+    nbig = 400 if thorough else 36
+    bigs = [make_big_history(1 if k % 6 == 5 else 0, ["behind-free", "behind-free", "behind-free", "sprinkled", "sprinkled", "few-free"][k % 6] if k >= 2 else "behind-free") for k in range(nbig)]
     lines = [line_of(h) for h in hs]
+    blines = [line_of(h) for h in bigs]
     par = 6
-    chunks = [lines[i::par] for i in range(par)]
-    with concurrent.futures.ThreadPoolExecutor(par) as ex:
-        outs = list(ex.map(lambda ch: vf.run_impl(impl, "C03", ch, deadline_ms=120000) if ch else [], chunks))
-    io = [None] * len(lines)
-    for k, ch in enumerate(outs):
-        for j, o in enumerate(ch):
-            io[k + par * j] = o
+    def run_par(exe, lns):
+        chunks = [lns[i::par] for i in range(par)]
+        with concurrent.futures.ThreadPoolExecutor(par) as ex:
+            outs = list(ex.map(lambda ch: vf.run_impl(exe, "C03", ch, deadline_ms=120000) if ch else [], chunks))
+        res = [None] * len(lns)
+        for k, ch in enumerate(outs):
+            for j, o in enumerate(ch):
+                res[k + par * j] = o
+        return res
+    import time
+    tm = [time.time()]
+    def lap(what):
+        tm.append(time.time())
+        if os.environ.get("VERIF_TIMING"):
+            sys.stderr.write("%-40s %.1fs\n" % (what, tm[-1] - tm[-2]))
+    io = run_par(impl, lines[:len(lines) - nsweep])
+    lap("impl: histories")
+    io += run_par(impl, lines[len(lines) - nsweep:])
+    lap("impl: high-byte sweep")
+    vf.ipc_cleanup()
+    bio = run_par(impl_docker, blines)
+    lap("impl: docker tables")
     vf.ipc_cleanup()
     if model:
         mo = vf.run_model(model, lines)
         vf.correspond(c, "histories through bbs.* / api handlers vs Model/C03 (results, projected .PASSWDS, index answers after every step)", lines, io, mo,
                       describe=lambda cs: "first differing step is found by ./check C03 --replay")
+        lap("model: histories + sweep")
+        bmo = vf.run_model(model, blines)
+        lap("model: docker tables")
+        vf.correspond(c, "production build (-tags docker, MAX_USERS=%d): histories on files of up to %d records with more than PRE_ALLOCATED_USERS=%d free records in front of live accounts vs Model/C03 "
+                         "(results, non-empty records, index answers, records the index leaves out, after the load and after every step)" % (DOCKER_MAX_USERS, max(h["n"] for h in bigs), PRE),
+                      blines, bio, bmo, describe=lambda cs: "run the case with build/implrun_docker C03 and build/C03/modelrun")
     nops = 0
     opmix, classes = {}, {}
     # accounts whose stored hash is the all-zero one (empty or NUL-leading password): they exist and nobody can log in
     lock = {"registered with the empty password": 0, "registered with a NUL-leading password": 0, "password changed to empty/NUL-leading": 0,
             "login/check/change refused on such an account although the password it was given is presented": 0}
-    for h, line, o in zip(hs, lines, io):
-        steps = parse_steps(o, nslots, len(h["idpool"]))
-        rep = {"cases": [line], "got": o[:4000]}
-        if steps is None or len(steps) != len(h["ops"]):
-            c.violation("history-aborted", "the history did not run to its end (status %s): shape=%s layer=%d" % (o.split()[:2], h["shape"], h["layer"]), rep)
-            continue
-        ref = Ref(h["init"], nslots, reserved, h["throttle"], idlen, emailsz, h["layer"])
-        before = ref.projection(h["pwpool"])
-        for si, ((code, a), (status, payload, table, look, dis)) in enumerate(zip(h["ops"], steps)):
-            nops += 1
-            name = OPN[code]
-            opmix[name] = opmix.get(name, 0) + 1
-            where = "step %d %s%s of a %s history (layer %d)" % (si + 1, name, [x.decode("latin-1") for x in a], h["shape"], h["layer"])
-            rep = {"cases": [line_of(dict(h, ops=h["ops"][:si + 1]))], "got": " ".join(status), "step": si + 1}
+    HOWBIG = "cd go/impl && go build -tags 'verif docker' -o ../../build/implrun_docker ./cmd/implrun; echo '<case>' | build/implrun_docker C03 -deadline 120000   (./check --replay uses the default build, whose 50-record table cannot hold this file)"
+    bigcov = {"accounts behind more than PRE_ALLOCATED_USERS free records": 0, "requests naming such an account": 0, "index rebuilt on the running server": 0,
+              "largest number of free records in front of an account": 0, "observations with records left out of the index": 0}
+
+    def judge(h, steps, ns):
+        """the direct predicates, step by step; steps = [(status, payload, table, lookups, disagreeing, missing, extra)]"""
+        nonlocal nops
+        big = "n" in h
+        ref = Ref(h["init"], ns, reserved, h["throttle"], idlen, emailsz, h["layer"])
+        for si, ((code, a), (status, payload, table, look, dis, miss, extra)) in enumerate(zip([(0, [])] * (1 if big else 0) + h["ops"], steps)):
+            loadstep = big and si == 0
+            sn = si if big else si + 1
+            name = "load" if loadstep else OPN[code]
+            if loadstep:
+                status = ("0",)
+            else:
+                nops += 1
+                opmix[name] = opmix.get(name, 0) + 1
+            where = "%s %s%s of a %s history (layer %d%s)" % ("after" if loadstep else "step %d" % sn, "the index was built from .PASSWDS" if loadstep else name, "" if loadstep else [x.decode("latin-1") for x in a], h["shape"], h["layer"],
+                                                          ", -tags docker, %d records, %d free ones in front of the last account" % (h["n"], h["free_before_last"]) if big else "")
+            rep = {"cases": [line_of(dict(h, ops=h["ops"][:sn]))], "got": " ".join(status), "step": sn}
+            if big:
+                rep["build"] = HOWBIG
             if status[0] in ("1", "2"):
                 c.violation("%s-crash" % name, "%s: the server %s" % (where, "panicked" if status[0] == "1" else "did not answer"), rep)
                 break
-            ok_exp, pay_exp = ref.expect(code, a)
-            ok_got = status[0] == "0"
-            classes[(name, ok_got)] = classes.get((name, ok_got), 0) + 1
-            if ok_got != ok_exp:
-                if code == 1 and not ok_got and not any(x is None for x in ref.slots):
-                    key = "register-full-table-expired-accounts"
-                    desc = "%s: refused (%s) although %d expired accounts could be reclaimed; afterwards uids %s are empty in .PASSWDS but still in the index" % (where, " ".join(status), len(ref.reclaimable()), dis[:8])
-                else:
-                    key = "%s-%s-wrongly" % (name, "accepted" if ok_got else "refused")
-                    desc = "%s: %s, the account table says it must be %s" % (where, "accepted" if ok_got else "refused (%s)" % " ".join(status), "accepted" if ok_exp else "refused")
-                c.violation(key, desc, dict(rep, expected="accepted" if ok_exp else "refused"))
-                break
-            if ok_got and code == 1 and genkb(a[1]) is None:
-                lock["registered with the empty password" if a[1] == b"" else "registered with a NUL-leading password"] += 1
-            if ok_got and code == 4 and genkb(a[2]) is None:
-                lock["password changed to empty/NUL-leading"] += 1
-            if not ok_got and code in (2, 3, 4) and id_ok(a[0], idlen) and genkb(a[1]) is None:
-                kk = ref.find(a[0])
-                if kk is not None and ref.slots[kk]["kb"] is None and ref.slots[kk]["id"] != b"guest":
-                    lock["login/check/change refused on such an account although the password it was given is presented"] += 1
-            if ok_got and pay_exp is not None and payload != pay_exp:
-                c.violation("%s-answer" % name, "%s: answered %r, expected %r" % (where, payload, pay_exp), dict(rep, expected=repr(pay_exp)))
-                break
-            allowed = ref.apply(code, a, ok_got, table)
+            if not loadstep:
+                ok_exp, pay_exp = ref.expect(code, a)
+                ok_got = status[0] == "0"
+                classes[(name, ok_got)] = classes.get((name, ok_got), 0) + 1
+                if big and code not in (8, 9) and any(low(cstr(a[0], idlen + 1)) == low(x) for x in h["deep"]):
+                    bigcov["requests naming such an account"] += 1
+                if code == 9:
+                    bigcov["index rebuilt on the running server"] += 1
+                if ok_got != ok_exp:
+                    if code == 1 and not ok_got and not any(x is None for x in ref.slots):
+                        key = "register-full-table-expired-accounts"
+                        desc = "%s: refused (%s) although %d expired accounts could be reclaimed; afterwards uids %s are empty in .PASSWDS but still in the index" % (where, " ".join(status), len(ref.reclaimable()), dis[:8])
+                    else:
+                        key = "%s-%s-wrongly" % (name, "accepted" if ok_got else "refused")
+                        desc = "%s: %s, the account table says it must be %s" % (where, "accepted" if ok_got else "refused (%s)" % " ".join(status), "accepted" if ok_exp else "refused")
+                    c.violation(key, desc, dict(rep, expected="accepted" if ok_exp else "refused"))
+                    break
+                if ok_got and code == 1 and genkb(a[1]) is None:
+                    lock["registered with the empty password" if a[1] == b"" else "registered with a NUL-leading password"] += 1
+                if ok_got and code == 4 and genkb(a[2]) is None:
+                    lock["password changed to empty/NUL-leading"] += 1
+                if not ok_got and code in (2, 3, 4) and id_ok(a[0], idlen) and genkb(a[1]) is None:
+                    kk = ref.find(a[0])
+                    if kk is not None and ref.slots[kk]["kb"] is None and ref.slots[kk]["id"] != b"guest":
+                        lock["login/check/change refused on such an account although the password it was given is presented"] += 1
+                if ok_got and pay_exp is not None and payload != pay_exp:
+                    c.violation("%s-answer" % name, "%s: answered %r, expected %r" % (where, payload, pay_exp), dict(rep, expected=repr(pay_exp)))
+                    break
+                allowed = ref.apply(code, a, ok_got, table)
+            else:
+                ok_got, allowed = True, set()
             after = ref.projection(h["pwpool"])
             if table != after:
-                d = [(k + 1, after[k], table[k]) for k in range(nslots) if table[k] != after[k]]
+                d = [(k + 1, after[k], table[k]) for k in range(ns) if table[k] != after[k]]
                 outside = [x for x in d if x[0] - 1 not in allowed]
                 key = "%s-%s" % (name, "changes-other-slot" if outside else "slot-content")
                 if not ok_got:
                     key = "%s-refused-but-table-changed" % name
                 c.violation(key, "%s: .PASSWDS differs from the account table in (uid, expected (id, verifying passwords, e-mail), found): %s" % (where, d[:4]), dict(rep, expected=str(d[:4])))
                 break
+            if big:
+                # every account of the file is in the index, wherever it is stored (the loader may leave out free records only)
+                lost = [(k, ref.slots[k - 1]["id"].decode("latin-1")) for k in miss if 1 <= k <= ns and ref.slots[k - 1] is not None]
+                if lost:
+                    c.violation("account-not-in-index", "%s: the user-id index does not hold the accounts (uid, id) %s of .PASSWDS (%d records are left out; only free ones may be): they cannot be looked up, cannot log in, and their ids can be registered again"
+                                % (where, lost[:6], len(miss)), dict(rep, expected="every non-empty record of .PASSWDS is reached by a hash chain", got=str(lost[:20])))
+                    break
+                if extra:
+                    c.violation("index-beyond-file", "%s: the index / the file hold uids beyond the %d records of the table: %s" % (where, ns, extra[:8]), rep)
+                    break
+                if miss:
+                    bigcov["observations with records left out of the index"] += 1
             if dis:
                 c.violation("index-file-disagree", "%s: SHM index and .PASSWDS hold different ids for uids %s" % (where, dis[:8]), rep)
                 break
@@ -370,8 +591,27 @@ def main():
                 d = [(n.decode("latin-1"), w, g) for n, w, g in zip(h["idpool"], want_look, look) if w != g]
                 c.violation("index-lookup", "%s: the index answers (name, expected uid, got): %s" % (where, d[:5]), rep)
                 break
-            before = after
+
+    for h, line, o in zip(hs, lines, io):
+        steps = parse_steps(o, nslots, len(h["idpool"]))
+        if steps is None or len(steps) != len(h["ops"]):
+            c.violation("history-aborted", "the history did not run to its end (status %s): shape=%s layer=%d" % (o.split()[:2], h["shape"], h["layer"]), {"cases": [line], "got": o[:4000]})
+            continue
+        judge(h, [(st, pay, tab, look, dis, [], []) for (st, pay, tab, look, dis) in steps], nslots)
         c.nontrivial((h["shape"], h["layer"], tuple((code, tuple(a)) for code, a in h["ops"])))
+    for h, line, o in zip(bigs, blines, bio):
+        steps = parse_big(o, h["n"], len(h["idpool"]))
+        if steps is None or len(steps) != len(h["ops"]) + 1:
+            c.violation("history-aborted", "the history did not run to its end (status %s): shape=%s layer=%d, -tags docker" % (o.split()[:2], h["shape"], h["layer"]), {"cases": [line], "got": o[:4000], "build": HOWBIG})
+            continue
+        judge(h, [(st, pay, tab, look, dis, miss, extra) for (st, pay, tab, look, miss, extra, dis) in steps], h["n"])
+        bigcov["accounts behind more than PRE_ALLOCATED_USERS free records"] += len(h["deep"])
+        bigcov["largest number of free records in front of an account"] = max(bigcov["largest number of free records in front of an account"], h["free_before_last"])
+        c.nontrivial((h["shape"], h["layer"], h["n"], tuple(h["pos"]), tuple((code, tuple(a)) for code, a in h["ops"])))
+    lap("predicates")
+    c.count(len(bigs), "histories on production-build tables")
+    c.cov["production_build_tables"] = bigcov
+    c.cov["distribution"].update({"docker-shape:" + s: sum(1 for h in bigs if h["shape"] == s) for s in ("behind-free", "sprinkled", "few-free")})
     c.count(len(hs), "histories")
     c.cov["operations"] = nops
     c.cov["distribution"].update({"op:" + k: v for k, v in sorted(opmix.items())})
@@ -384,11 +624,16 @@ def main():
               "observed_results": [" ".join(s[0]) for s in (parse_steps(io[5], nslots, len(hs[5]["idpool"])) or [])[:8]]})
     c.finish(rule="PRNG(seed)-generated histories of 15-40 operations over an id pool (valid, too short/long, leading digit, symbols, NUL inside, non-ASCII, case twins, new/guest, the reserved ids of the fixture) "
                   "and a password pool (shared 8-byte prefixes, bit-7 twins, NUL inside, NUL first, zero length, key block zero) on %d-slot tables that are roomy / tight / full / full with expired accounts; one history in five through the gin handlers; "
-                  "a history is distinct by (shape, layer, operation list); each operation is one evaluation of the predicates" % nslots,
+                  "plus, complete for its domain, every byte value 0x80..0xFF at every position of otherwise well-formed ids (register + one other request each, see exhaustive_parts); "
+                  "plus histories of the same kind on the production build (-tags docker, MAX_USERS=%d) over files of a few thousand records in which accounts sit behind PRE_ALLOCATED_USERS-1 / exactly / +1 / +2 / +9 / +120 / +600 free records, are sprinkled over such a file, "
+                  "or (control) the file has at most PRE_ALLOCATED_USERS free records, with requests for those accounts in every letter case, re-registration of their ids and rebuilds of the index on the running server; "
+                  "a history is distinct by (shape, layer, table, operation list); each operation is one evaluation of the predicates" % (nslots, DOCKER_MAX_USERS),
              assumptions=["passwords are compared through their DES key block (first 8 bytes up to NUL, low 7 bits): crypt(3) sees nothing else (C02); that two different key blocks never verify each other's hash is C02's cryptographic assumption",
                           "fewer than USHM_SIZE (31) distinct users are logged in during one history; home/<c>/ parents exist",
                           "'the account's current password' is read as: the password last given to Register/ChangePasswd when it is non-empty as a C string; for a zero-length or NUL-leading one cmbbs.GenPasswd stores the all-zero hash (repaired under C02: it used to panic on zero length) and, as in pttbbs, nothing verifies against it - such an account exists, keeps its id taken, and cannot log in or change its password (counted under coverage.zero_hash_accounts)",
-                          "operations are sequential (concurrent registrations are C15's subject); the clock enters only through the .fresh throttle and the last-login age of the initial accounts"])
+                          "operations are sequential (concurrent registrations are C15's subject); the clock enters only through the .fresh throttle and the last-login age of the initial accounts",
+                          "production build: .PASSWDS is as long as its records (up to about 2600 of the 2 000 000; fillUHash reads to the end of the file) - a 1 GB file is not written; fewer registrations per history than free records in the index, "
+                          "so the clean-up of a full 2 000 000-slot table (tryCleanUser) is not exercised on that build; the free records are all-zero records (no garbage ids)"])
 
 
 if __name__ == "__main__":
